@@ -1,6 +1,8 @@
 import Solvor.Lp.Lemmas
 import Mathlib.Data.List.GetD
 import Mathlib.Data.List.Forall2
+import Mathlib.Data.List.Perm.Subperm
+import Solvor.Lp.Binary
 /-! Lp: helper lemmas for C04 (`roundDist`, fixing rows, certified box, assignments, fold-min). -/
 namespace Solvor.Lp
 open Finset
@@ -415,5 +417,46 @@ theorem milp_fixFeasible (P : LP) (hwf : P.A.length = P.b.length) (ints ub : Lis
   obtain ⟨a, ha1, ha2⟩ := chkBox_sound P x h.1 ints ub ys hbox hint
   exact ⟨a, mem_assignments a ub ha2,
     (feasible_fix_iff P hwf ints a ha1.length_eq hints x).mpr ⟨h.1, ha1⟩⟩
+
+/-! ### `_detect_binary` -/
+
+theorem nodup_eraseDups : ∀ (k : ℕ) (l : List ℕ), l.length ≤ k → l.eraseDups.Nodup
+  | _, [], _ => by simp
+  | 0, _ :: _, h => by simp at h
+  | k + 1, a :: as, h => by
+    rw [List.eraseDups_cons, List.nodup_cons]
+    constructor
+    · rw [List.mem_eraseDups, List.mem_filter]
+      simp
+    · refine nodup_eraseDups k _ (le_trans (List.length_filter_le _ _) ?_)
+      simpa using h
+
+theorem int_of_abs_le {q eps : ℚ} (hq : ∃ z : ℤ, q = z) (h : |q| ≤ eps) (heps : eps < 1) : q = 0 := by
+  obtain ⟨z, rfl⟩ := hq
+  have : |z| < 1 := by
+    have : ((|z| : ℤ) : ℚ) < 1 := by rw [Int.cast_abs]; exact lt_of_le_of_lt h heps
+    exact_mod_cast this
+  rw [Int.abs_lt_one_iff.mp this]; simp
+
+theorem boundedVars_spec (P : LP) (ints : List ℕ) (eps : ℚ) (j : ℕ) (hj : j ∈ boundedVars P ints eps) :
+    ∃ i < P.m, |vget P.b i - 1| ≤ eps ∧ rowNz P eps i = [j] ∧ j ∈ ints ∧ |P.a i j - 1| < eps := by
+  unfold boundedVars at hj
+  rw [List.mem_filterMap] at hj
+  obtain ⟨i, hi, hf⟩ := hj
+  rw [List.mem_range] at hi
+  refine ⟨i, hi, ?_⟩
+  split at hf
+  · cases hf
+  · rename_i hb
+    rw [absR_eq] at hb
+    split at hf
+    · rename_i j' hnz
+      split at hf
+      · rename_i hc
+        cases hf
+        simp only [Bool.and_eq_true, List.contains_eq_mem, decide_eq_true_eq, absR_eq] at hc
+        exact ⟨not_lt.mp hb, hnz, hc.1, hc.2⟩
+      · cases hf
+    · cases hf
 
 end Solvor.Lp
